@@ -18,6 +18,7 @@ Not proved here (harness only, see `PARTIAL` in `harness/props/c13.py`): agreeme
 library's `point_to_box/disk/cylinder/ellipsoid` (those functions belong to C10/C11's model).
 -/
 import D3.Proofs.ContainTestExact
+import D3.Proofs.ContainMeshConverse
 
 namespace D3
 namespace C13
@@ -290,6 +291,142 @@ example : ∀ v ∈ exVerts.toList, ∀ f ∈ exFaces,
   simp only [exVerts, exFaces, List.mem_cons, List.not_mem_nil, or_false] at hv hf
   rcases hv with rfl | rfl | rfl | rfl <;> rcases hf with rfl | rfl | rfl | rfl <;>
     norm_num [faceNormal, faceCenter, three, V3.cross, V3.sdiv, V3.dot_def]
+
+/-! ## convex mesh, converse direction: the accepted set is a convex half-space intersection;
+for a tetrahedron it is exactly the hull of the vertices -/
+
+/-- the example tetrahedron is `tetFaces` of its four vertices and is positively oriented -/
+theorem exFaces_eq : exFaces = tetFaces ⟨0, 0, 0⟩ ⟨1, 0, 0⟩ ⟨0, 1, 0⟩ ⟨0, 0, 1⟩ := rfl
+theorem exTet_pos : 0 < tetDet (⟨0, 0, 0⟩ : V) ⟨1, 0, 0⟩ ⟨0, 1, 0⟩ ⟨0, 0, 1⟩ := by
+  norm_num [tetDet, V3.cross, V3.dot_def]
+
+/-- **C13, mesh, exact characterisation of the accepted set.** For every pose (orthonormal or
+not) and every face list, the loop body of `points_in_convex_mesh` accepts `p` iff the pulled-back
+point `Rᵀ(p − t)` lies in every face half-space `⟨n_f, x − centroid_f⟩ ≤ 0` (tolerance of the
+code: none, the comparison is `> 0` negated). -/
+theorem mesh_predicate_is_halfspace_intersection (A : Pose ℝ) (fs : List (Face ℝ)) (p : V) :
+    pointInFaces fs A p = true ↔
+      ∀ f ∈ fs, V3.dot (faceNormal f) (A.applyInv p - faceCenter f) ≤ 0 :=
+  pointInFaces_iff_local fs A p
+
+example : pointInFaces exFaces exPose (exPose.apply ⟨1 / 4, 1 / 4, 1 / 4⟩) = true := by
+  rw [mesh_predicate_is_halfspace_intersection, Pose.applyInv_apply exPose_orth]
+  intro f hf
+  simp only [exFaces, List.mem_cons, List.not_mem_nil, or_false] at hf
+  rcases hf with rfl | rfl | rfl | rfl <;>
+    norm_num [faceNormal, faceCenter, three, V3.cross, V3.sdiv, V3.dot_def]
+
+/-- **C13, mesh, the same in the world frame** (orthonormal pose): the accepted set is the
+intersection of the half-spaces with normal `R n_f` through the posed centroid. -/
+theorem mesh_predicate_is_halfspace_intersection_world {A : Pose ℝ} (hA : Orthonormal A.R)
+    (fs : List (Face ℝ)) (p : V) :
+    pointInFaces fs A p = true ↔
+      ∀ f ∈ fs, V3.dot (A.R.mulVec (faceNormal f)) (p - A.apply (faceCenter f)) ≤ 0 := by
+  rw [mesh_predicate_is_halfspace_intersection]
+  have key : ∀ f : Face ℝ, V3.dot (A.R.mulVec (faceNormal f)) (p - A.apply (faceCenter f)) =
+      V3.dot (faceNormal f) (A.applyInv p - faceCenter f) := by
+    intro f
+    have e : p - A.apply (faceCenter f) = A.R.mulVec (A.applyInv p - faceCenter f) := by
+      conv_lhs => rw [← Pose.apply_applyInv hA p]
+      unfold Pose.apply
+      apply V3.ext' <;>
+        simp only [M3.mulVec, V3.dot_def, V3.add_x, V3.add_y, V3.add_z, V3.sub_x, V3.sub_y,
+          V3.sub_z] <;> ring
+    rw [e, hA.dot_mulVec]
+  simp only [key]
+
+example : Orthonormal exPose.R := exPose_orth
+
+/-- **C13, mesh, the accepted set is convex**: if `p` and `q` are accepted, so is every point of
+the segment between them (any pose, any face list). -/
+theorem mesh_predicate_convex (A : Pose ℝ) (fs : List (Face ℝ)) (p q : V)
+    (hp : pointInFaces fs A p = true) (hq : pointInFaces fs A q = true) (s : ℝ) (h0 : 0 ≤ s)
+    (h1 : s ≤ 1) : pointInFaces fs A ((1 - s) * p + s * q) = true := by
+  rw [pointInFaces_iff_local] at hp hq ⊢
+  rw [applyInv_lerp]
+  exact facesLocal_lerp fs _ _ hp hq s h0 h1
+
+/-- two accepted points of the example tetrahedron (a vertex and an interior point) -/
+theorem exAccepted (q : V) (hq : q = ⟨0, 0, 1⟩ ∨ q = ⟨1 / 4, 1 / 4, 1 / 4⟩) :
+    pointInFaces exFaces exPose (exPose.apply q) = true := by
+  rw [mesh_predicate_is_halfspace_intersection, Pose.applyInv_apply exPose_orth]
+  intro f hf
+  simp only [exFaces, List.mem_cons, List.not_mem_nil, or_false] at hf
+  rcases hq with rfl | rfl <;> rcases hf with rfl | rfl | rfl | rfl <;>
+    norm_num [faceNormal, faceCenter, three, V3.cross, V3.sdiv, V3.dot_def]
+
+example : pointInFaces exFaces exPose ((1 - 1 / 3 : ℝ) * exPose.apply ⟨0, 0, 1⟩ +
+    (1 / 3 : ℝ) * exPose.apply ⟨1 / 4, 1 / 4, 1 / 4⟩) = true :=
+  mesh_predicate_convex exPose exFaces _ _ (exAccepted _ (Or.inl rfl)) (exAccepted _ (Or.inr rfl))
+    (1 / 3) (by norm_num) (by norm_num)
+
+/-- **C13, mesh, predicate ⊆ hull for a tetrahedron.** Let `a b c d` span a non-degenerate
+tetrahedron labelled so that `⟨(b−a)×(c−a), d−a⟩ > 0` (always possible by swapping two labels),
+and let the face list contain its four outward-wound triangles `(a,c,b) (a,b,d) (a,d,c) (b,c,d)`.
+Then every accepted point is a convex combination of the four (posed) vertices: the barycentric
+coordinate of a vertex is `−faceProj(opposite face)/det ≥ 0`. -/
+theorem mesh_tetra_predicate_subset_hull {A : Pose ℝ} (hA : Orthonormal A.R) (a b c d : V)
+    (hD : 0 < tetDet a b c d) (fs : List (Face ℝ)) (hsub : ∀ f ∈ tetFaces a b c d, f ∈ fs) (p : V)
+    (hp : pointInFaces fs A p = true) : hullSet A [a, b, c, d] p := by
+  rw [pointInFaces_iff hA] at hp
+  obtain ⟨q, hq, rfl⟩ := hp
+  exact ⟨q, tet_faces_subset_hull a b c d hD q (fun f hf => hq f (hsub f hf)), rfl⟩
+
+example : hullSet exPose [⟨0, 0, 0⟩, ⟨1, 0, 0⟩, ⟨0, 1, 0⟩, ⟨0, 0, 1⟩]
+    (exPose.apply ⟨1 / 4, 1 / 4, 1 / 4⟩) := by
+  refine mesh_tetra_predicate_subset_hull exPose_orth _ _ _ _ exTet_pos exFaces
+    (by rw [exFaces_eq]; exact fun f hf => hf) _ ?_
+  rw [mesh_predicate_is_halfspace_intersection, Pose.applyInv_apply exPose_orth]
+  intro f hf
+  simp only [exFaces, List.mem_cons, List.not_mem_nil, or_false] at hf
+  rcases hf with rfl | rfl | rfl | rfl <;>
+    norm_num [faceNormal, faceCenter, three, V3.cross, V3.sdiv, V3.dot_def]
+
+/-- **C13, mesh, the tetrahedron predicate is exact for the hull.** For the outward-wound
+non-degenerate tetrahedron the model predicate is `true` exactly on the posed convex hull of the
+four vertices (both inclusions, no further precondition). -/
+theorem mesh_tetra_exact {A : Pose ℝ} (hA : Orthonormal A.R) (a b c d : V)
+    (hD : 0 < tetDet a b c d) (p : V) :
+    pointInFaces (tetFaces a b c d) A p = true ↔ hullSet A [a, b, c, d] p :=
+  ⟨mesh_tetra_predicate_subset_hull hA a b c d hD _ (fun _ hf => hf) p,
+   mesh_hull_subset hA [a, b, c, d] (tetFaces a b c d)
+     (tet_vertices_in_faces a b c d (le_of_lt hD)) p⟩
+
+example (p : V) : pointInFaces exFaces exPose p = true ↔
+    hullSet exPose [⟨0, 0, 0⟩, ⟨1, 0, 0⟩, ⟨0, 1, 0⟩, ⟨0, 0, 1⟩] p :=
+  mesh_tetra_exact exPose_orth _ _ _ _ exTet_pos p
+
+/-- **C13, mesh, tetrahedron of the other orientation.** If `⟨(b−a)×(c−a), d−a⟩ < 0`, the
+outward-wound faces are those of the relabelled tetrahedron `a c b d`, and the predicate on them
+is again exact for the hull; together with `mesh_tetra_exact` this covers every non-degenerate
+tetrahedron (`tetDet ≠ 0`). -/
+theorem mesh_tetra_exact_neg {A : Pose ℝ} (hA : Orthonormal A.R) (a b c d : V)
+    (hD : tetDet a b c d < 0) (p : V) :
+    pointInFaces (tetFaces a c b d) A p = true ↔ hullSet A [a, c, b, d] p :=
+  mesh_tetra_exact hA a c b d (by rw [tetDet_swap]; linarith) p
+
+example : tetDet (⟨0, 0, 0⟩ : V) ⟨0, 2, 0⟩ ⟨1, 0, 0⟩ ⟨0, 0, 3⟩ < 0 := by
+  norm_num [tetDet, V3.cross, V3.dot_def]
+
+/-- **C13, mesh, rejection soundness.** Under the vertex/face precondition of
+`mesh_hull_subset`, a rejected point is not in the posed hull of the vertices. -/
+theorem mesh_reject_not_in_hull {A : Pose ℝ} (hA : Orthonormal A.R) (vs : List V)
+    (fs : List (Face ℝ))
+    (hv : ∀ v ∈ vs, ∀ f ∈ fs, V3.dot (faceNormal f) (v - faceCenter f) ≤ 0) (p : V)
+    (hp : pointInFaces fs A p = false) : ¬ hullSet A vs p := by
+  intro hh
+  rw [mesh_hull_subset hA vs fs hv p hh] at hp
+  exact Bool.noConfusion hp
+
+example : ¬ hullSet exPose [⟨0, 0, 0⟩, ⟨1, 0, 0⟩, ⟨0, 1, 0⟩, ⟨0, 0, 1⟩]
+    (exPose.apply ⟨1 / 3, 1 / 3, 2 / 5⟩) := by
+  refine mesh_reject_not_in_hull exPose_orth _ exFaces
+    (by rw [exFaces_eq]; exact tet_vertices_in_faces _ _ _ _ (le_of_lt exTet_pos)) _ ?_
+  rw [Bool.eq_false_iff, Ne, mesh_predicate_is_halfspace_intersection,
+    Pose.applyInv_apply exPose_orth]
+  intro h
+  have := h ⟨⟨1, 0, 0⟩, ⟨0, 1, 0⟩, ⟨0, 0, 1⟩⟩ (by simp [exFaces])
+  norm_num [faceNormal, faceCenter, three, V3.cross, V3.sdiv, V3.dot_def] at this
 
 /-! ## the same model terms, executed at `Rat` on the 3-4-5 pose (kernel evaluation, no axioms):
 boundary points are accepted, points just outside are rejected -/
